@@ -315,6 +315,15 @@ impl G<'_> {
                 self.fail(key, format!("{line}: local_max_data grew by {dl}, consumed/discarded/granted {allowed}"));
             }
         }
+        // no frame of any type opens more peer-initiated streams than were advertised
+        if w[0] != "new" {
+            let (nr, mr) = (v.two("nr"), v.two("mr"));
+            for d in 0..2 {
+                if nr[d] > mr[d] {
+                    self.fail("C06-remote-streams-opened-beyond-limit", format!("{line}: next_remote {nr:?} > max_remote {mr:?}"));
+                }
+            }
+        }
         // MAX_STREAMS credit only after a remote stream became fully closed (or the limit was raised)
         let (mr, pmr) = (v.two("mr"), prev.two("mr"));
         for d in 0..2 {
@@ -418,14 +427,19 @@ impl G<'_> {
         let stop_code = prev.ss(id, "sr").filter(|s| *s != "-").map(|s| s.to_string());
         if known {
             // decision table of write (C05 write_accepts_min, C11)
+            // a stream whose `Stopped` event the application has seen must never park a writer: the
+            // stop is reported whatever the connection-level credit is
+            if self.stopped_events.contains(&id) && !prev.closed() && st == "R" && v.result == "err Blocked" {
+                self.fail("C11-write-blocked-on-stopped-stream", format!("write {id} {n} after the Stopped event: credit conn={conn} stream={stream_credit}, got {}", v.result));
+            }
             let expect = if prev.closed() {
                 "err Blocked".to_string()
+            } else if let (true, Some(c)) = (st == "R", stop_code.as_ref()) {
+                format!("err Stopped {c}")
             } else if conn == 0 {
                 "err Blocked".to_string()
             } else if st != "R" {
                 "err ClosedStream".to_string()
-            } else if let Some(c) = stop_code {
-                format!("err Stopped {c}")
             } else if stream_credit == 0 {
                 "err Blocked".to_string()
             } else {
@@ -839,7 +853,12 @@ impl G<'_> {
                 self.op(&format!("maxdata {n}"));
             }
             67..=70 => {
-                let id = self.pick_send_id();
+                let mut id = self.pick_send_id();
+                if !self.early && self.rng.chance(1, 6) {
+                    // a peer-initiated bidirectional stream at or beyond the advertised count
+                    id = sid(1 - self.side, 0, self.v.two("mr")[0] + [0, 1, 1000][self.rng.below(3) as usize]);
+                }
+                let prev_mr = self.v.two("mr");
                 let cur = self.v.sn(id, "md").unwrap_or(self.initial_limit(id));
                 let n = match self.rng.below(4) {
                     0 => cur + self.rng.below(3),
@@ -849,6 +868,10 @@ impl G<'_> {
                 }
                 .min(V62);
                 if let Some(v) = self.op(&format!("maxsd {id} {n}")) {
+                    let over_count = id % 2 != self.side && id / 2 % 2 == 0 && id / 4 >= prev_mr[0];
+                    if over_count && !v.result.starts_with("err STREAM_LIMIT_ERROR") {
+                        self.fail("C06-stream-id-over-limit", format!("maxsd {id} beyond max_remote {prev_mr:?} -> {}", v.result));
+                    }
                     if v.result == "ok" && v.send.contains_key(&id) {
                         let l = self.peer_stream_limit.get(&id).cloned().unwrap_or(0);
                         self.peer_stream_limit.insert(id, l.max(n));
@@ -1093,6 +1116,23 @@ impl G<'_> {
             self.op("stop 0 7");
             self.op("rst 0 9 14");
             self.op("stream 4 0 39 0");
+        }
+        // write-after-stop: send window used up, stream stopped by the peer, Stopped event polled
+        if self.start(0, 10, 10, 100, 1_000_000, 1000) {
+            self.apply_params([100, 100, 100, 10, 10, 100_000]);
+            self.open_dir(1);
+            self.op("write 2 100");
+            self.op("write 2 1");
+            self.op("stopsend 2 7");
+            self.poll();
+            self.write_exact(2, 1);
+        }
+        // maxsd-beyond-limit: MAX_STREAM_DATA for a peer stream far beyond the advertised count
+        if self.start(0, 0, 0, 100, 100, 100) {
+            self.apply_params([100, 100, 100, 2, 2, 100]);
+            self.op("maxsd 4001 5");
+            self.op("poll");
+            self.op("accept bi");
         }
         // F15: 59 bytes received, reset with final size 59 (credited), then stopped (credited again)
         if self.start(1, 2, 2, 100, 59, 2002) {
